@@ -148,6 +148,20 @@ Definition select_tcp (c : config) (alpn : list (list N)) (sni : option (list N)
               end
   end.
 
+(* quic_multiplexer.rs: the QUIC listener offers select the single protocol h3 together with the SNI, once in the
+   certificate callback and once when the handshake is finished. A selection is what the connection is served as; a
+   refusal (or no SNI) leaves the bootstrap meta: some main host ([boot], HashMap order), tunnel channel, HTTP/3.
+   [uses] = QUIC_SERVES_THE_SELECTION_OR_BOOTSTRAP. *)
+Definition alpn_h3 : list N := [104; 51].
+Definition bootstrap (boot : N) : meta := {| m_channel := ChTunnel; m_proto := H3; m_host := boot; m_creds := None |}.
+Definition select_quic (uses : bool) (c : config) (boot : N) (sni : option (list N)) : meta :=
+  match sni with
+  | Some (x :: s) =>
+    if uses then match select c [alpn_h3] (x :: s) with Some m => m | None => bootstrap boot end
+    else bootstrap boot
+  | _ => bootstrap boot
+  end.
+
 (* TlsHostsSettings::validate: non-empty main hosts, host names unique across the four lists,
    certificates loadable (the [loadable] oracle stands for utils::load_certs / load_private_key) *)
 Fixpoint nodupb (l : list (list N)) : bool :=
